@@ -16,13 +16,15 @@ first_missed = {
  'C02-d': 'confusion maps were single-index only; a joint (two-index, symbolic 4x4) confusion matrix was added to act_on_measure afterwards',
  'C03-c': 'BooleanHamiltonianGate was outside the first version of C03; obligation BooleanHamiltonianGate (symbolic angle, 10 expression lists) added afterwards (its docstring had the opposite sign: repaired in /repo 41e230d)',
  'C03-d': 'MatrixGate was outside the first version of C03; obligation MatrixGate (symbolic matrix, returned arrays edited by the caller) added afterwards',
+ 'C13-c': 'CH-form rules were only exercised through a menu of concrete gates (no exponent that is a non-zero multiple of 2 with a global shift); obligations chform.rule.* (update rules called directly, exponent menu over [-2, 4], SYMBOLIC global shift) added afterwards',
+ 'C13-d': 'the act_on dispatch menu had no general multi-qubit CliffordGate; obligation tableau.act_on_clifford_gate (every ordered choice of axes incl. no spectator qubit, symbolic sign bits) added afterwards',
+ 'C16-a': 'program (de)serialization was outside the first (bit-packing only) C16 claim; the message part (pure-Python protobuf backend with symbolic scalars, checks/C16_msgs.py) was built afterwards; NOT blind: it was specified after this seed had been seen (DESIGN 9.5)',
+ 'C16-b': 'sweep (de)serialization was outside the first C16 claim; message part built afterwards; NOT blind (DESIGN 9.5)',
  'C19-b': 'the concrete KAK fall-back menu only had gates with interaction (x,0,0); matrix-only gates with generic coefficients added afterwards',
 }
 still = {
  'C08-a': 'trace_distance_bound is outside the C08 claim (eigenvalue angles / arccos; the ControlledOperation path goes through LAPACK)',
  'C15-b': 'three-qubit synthesis (CS decomposition, LAPACK) is outside the narrow C15 claim',
- 'C16-a': 'program (de)serialization through protobuf messages is outside the narrow C16 claim (bit packing only)',
- 'C16-b': 'sweep (de)serialization through protobuf messages is outside the narrow C16 claim',
 }
 rows = []
 for d in sorted(os.listdir(V)):
